@@ -222,6 +222,35 @@ def known_for(prop):
     return [k for k in load_known()["findings"] if prop in k["properties"] and k["status"] == "known"]
 
 
+def replay_witnesses(rep, binpath, wd):
+    """witnesses of the findings listed for this property (findings/known.json, field replay), run on the real library:
+    fixed -> must show the repaired behaviour (else VIOLATION: the defect is back); known -> should still show the defect
+    (else NOTE stale finding)"""
+    from . import specgen
+    items = []
+    for f in load_known()["findings"]:
+        if rep.prop in f["properties"]:
+            for w in f.get("replay", []):
+                items.append((f, w))
+    if not items:
+        return
+    sub = os.path.join(wd, "witnesses")
+    os.makedirs(sub, exist_ok=True)
+    pf = os.path.join(sub, "progs.json")
+    with open(pf, "w") as fh:
+        json.dump([specgen.STD_PROG], fh)
+    cases = [{"id": i, "prog": 0, "spec": w["spec"], "env": w["env"], "argv": w["argv"]} for i, (f, w) in enumerate(items)]
+    rs = run_harness(binpath, "exec", cases, sub, env={"HARNESS_PROGS": pf}, shards=1, deadline_ms=3000)
+    for (f, w), r in zip(items, rs):
+        got = "dead" if (r.get("hang") or r.get("crash")) else "specerr" if r.get("specerr") else "ran" if r.get("ran") else "usage" if r.get("err") else "other"
+        desc = "%s: spec=%r env=%s argv=%s -> %s (listed: %s)" % (f["id"], w["spec"], w["env"], w["argv"], got, w["want"])
+        rep.cov.setdefault("witnesses_replayed", []).append(desc)
+        if f["status"] == "fixed" and got != w["want"]:
+            rep.violation("a repaired defect is back: " + desc, {"engine": "witness", "finding": f["id"], "witness": w})
+        elif f["status"] == "known" and got != w["want"]:
+            rep.notes.append("stale finding " + desc)
+
+
 class Report:
     def __init__(self, prop, tier, level):
         self.prop, self.tier, self.level = prop, tier, level
